@@ -237,6 +237,7 @@ class QvmCpu:
         self.trap_target = None
         self.error_handler_active = False
         self.trapped_addr = 0
+        self.trapped_frame = None
 
         self.received_keyboard_interrupt = False
         signal.signal(signal.SIGINT, self.signal_handler)
@@ -444,6 +445,13 @@ class QvmCpu:
                     self.last_trap = code
                     self.last_trap_kwargs = kwargs
             else:
+                # the handler is module-level code: it runs on the
+                # module-level frame. the frame of the routine the
+                # error occurred in is kept for RESUME.
+                self.trapped_frame = self.cur_frame
+                while self.cur_frame is not None and \
+                      self.cur_frame.prev_frame is not None:
+                    self.cur_frame = self.cur_frame.prev_frame
                 self.pc = self.trap_target
                 self.error_handler_active = True
                 return
@@ -832,7 +840,7 @@ class QvmCpu:
             self.trap(TrapCode.CANNOT_RESUME,
                       msg=f'Could not find statement to resume at addr {self.trapped_addr:08x}.')
         self.pc = stmt.start_offset
-        self.error_handler_active = False
+        self._leave_error_handler()
 
     def _exec_errresn(self):
         # RESUME NEXT
@@ -844,6 +852,13 @@ class QvmCpu:
             self.trap(TrapCode.CANNOT_RESUME,
                       msg=f'Could not find statement to resume at addr {self.trapped_addr:08x}.')
         self.pc = stmt.end_offset
+        self._leave_error_handler()
+
+    def _leave_error_handler(self):
+        if self.error_handler_active and self.trapped_frame is not None:
+            # back to the routine the error occurred in
+            self.cur_frame = self.trapped_frame
+        self.trapped_frame = None
         self.error_handler_active = False
 
     def _exec_exp(self):
